@@ -4,6 +4,7 @@
 package sqlh
 
 import (
+	"runtime/debug"
 	"context"
 	"fmt"
 	"io"
@@ -23,6 +24,8 @@ import (
 	"github.com/dolthub/dolt/go/libraries/utils/filesys"
 	"github.com/dolthub/dolt/go/store/types"
 )
+
+var sqlTrace = os.Getenv("DSIM_SQLTRACE") != ""
 
 type World struct {
 	Root    string // directory that holds test/ (the repository) and home/
@@ -169,6 +172,28 @@ func (s *Sess) End() { sql.SessionEnd(s.ds) }
 
 // Exec runs one statement to completion and returns its rows rendered as strings.
 func (s *Sess) Exec(ctx context.Context, q string) (rows [][]string, err error) {
+	defer func() {
+		// a panic inside the engine while it executes a statement is reported like an error of
+		// that statement (the harnesses decide what an error at that point means)
+		if p := recover(); p != nil {
+			rows, err = nil, fmt.Errorf("panic in the engine: %v", p)
+			if sqlTrace {
+				os.WriteFile(os.Getenv("DSIM_SQLTRACE")+".stack", debug.Stack(), 0o644)
+			}
+		}
+	}()
+	if sqlTrace {
+		defer func() {
+			msg := ""
+			if err != nil {
+				msg = "  ERR " + firstLine(err)
+			}
+			if f, ferr := os.OpenFile(os.Getenv("DSIM_SQLTRACE"), os.O_APPEND|os.O_CREATE|os.O_WRONLY, 0o644); ferr == nil {
+				fmt.Fprintf(f, "sql[%d] %s  -> %d rows%s\n", s.ID, q, len(rows), msg)
+				f.Close()
+			}
+		}()
+	}
 	if err := sql.SessionCommandBegin(s.ds); err != nil {
 		return nil, err
 	}
